@@ -22,7 +22,7 @@ import math
 
 from opsim import seams
 from opsim.sched import SeqTracer
-from opsim.util import call, plain, weighted
+from opsim.util import call, plain, weighted, quiet
 
 from operon_ai.topology.cascade import Cascade, CascadeStage, MAPKCascade
 
@@ -263,7 +263,7 @@ def run(plan, k):
     if mapk:
         c = MAPKCascade(name="mapk", tier1_amplification=cfg["tiers"][0], tier2_amplification=cfg["tiers"][1],
                         tier3_amplification=cfg["tiers"][2], max_amplification=cfg["max_amp"],
-                        halt_on_failure=halt, silent=True)
+                        halt_on_failure=halt, silent=quiet())
         tiers = list(zip(PRESET, cfg["tiers"]))
         if cfg["drop_first"]:
             if c.remove_stage("MAPKKK") is not True:
@@ -275,7 +275,7 @@ def run(plan, k):
         signal0 = MAPK_INPUTS[cfg["input"]]
         signal0 = dict(signal0) if isinstance(signal0, dict) else signal0
     else:
-        c = Cascade("sim", max_amplification=cfg["max_amp"], halt_on_failure=halt, silent=True)
+        c = Cascade("sim", max_amplification=cfg["max_amp"], halt_on_failure=halt, silent=quiet())
         signal0 = "s0"
     base = len(desc)
     for j, st in enumerate(plan["ops"]):
